@@ -262,6 +262,21 @@ pub fn template_pairs() -> Vec<(&'static str, String, String)> {
             v.push(("flip-16-bit-comparison", format!("r = 0; while ({} {} {}) {{ r++; break; }}", x, o1, y), format!("r = 0; while ({} {} {}) {{ r++; break; }}", y, o2, x)));
         }
     }
+    // switch with case groups of several labels versus the equivalent if-chain
+    for sc in ["a", "a & 3", "a + 1", "X", "arr[X]"] {
+        for (l1, l2) in [(1, 0), (0, 1), (2, 0), (0, 255), (5, 1)] {
+            v.push((
+                "switch-group-vs-if-chain",
+                format!("switch ({}) {{ case {}: case {}: r = 1; break; default: r = 9; }}", sc, l1, l2),
+                format!("if (({}) == {} || ({}) == {}) r = 1; else r = 9;", sc, l1, sc, l2),
+            ));
+            v.push((
+                "switch-group-vs-if-chain",
+                format!("switch ({}) {{ case 7: r = 3; break; case {}: case {}: r = 1; break; }}", sc, l1, l2),
+                format!("if (({}) == 7) r = 3; else if (({}) == {} || ({}) == {}) r = 1;", sc, sc, l1, sc, l2),
+            ));
+        }
+    }
     let fns = "void f0() { c = c + 1; }\nchar f1() { return a + 1; }\nchar f2(char v) { return v + b; }\nvoid f4(char v) { arr[X] = v; }\nchar f9(char v) { if (v == 3) return 0; return v; }\n";
     for (call, inplace) in [
         ("f0();", "c = c + 1;"),
@@ -314,7 +329,7 @@ fn build(tier: Tier) -> (Vec<CaseSpec>, Vec<PairSpec>) {
                     true
                 }
             }
-            f if f.starts_with("F2") || f.starts_with("F3") || f.starts_with("F7") => true,
+            f if f.starts_with("F2") || f.starts_with("F3") || f.starts_with("F7") || f.starts_with("F6") || f == "F1.nest" || f == "F1.sext" || f == "F1.w16k" => true,
             _ => false,
         };
         if keep {
@@ -471,7 +486,7 @@ impl Check for C15 {
         "exploration"
     }
     fn rule(&self) -> String {
-        "Base programs: families F1 (expressions), F2 (control flow, switch arrangements), F3, F4 (statement sequences), F7. Seven meaning-preserving AST rewrite rules are applied at each of the first three applicable sites of every program: commute the operands of + & | ^ (side-effect-free operands); a < b <-> b > a and a <= b <-> b >= a; x op= e <-> x = x op e; statement-level ++x / x++ / --x / x-- <-> x += 1 / x -= 1; if (c) A else B <-> if (!c) B else A; for <-> while (bodies without continue); switch <-> if-chain (groups ending in break, default last). Plus template pairs: indexing through a register holding k versus the constant k (read, write, +=, ++, compare, 16-bit arrays), a call versus its body written in place (also with the function marked inline), ++x versus x += 1 between an operation that leaves a carry and a test of x, and flipped 16-bit comparisons over inputs with equal and different high bytes. Both spellings are compiled at -O1 and -O0; if both are accepted they are co-executed from every enumerated input and must end in the same RAM/X/Y. Non-trivial = both spellings executed; distinct = distinct (original, rewritten) pair.".into()
+        "Base programs: families F1 (expressions), F2 (control flow, switch arrangements), F3, F4 (statement sequences), F7. Seven meaning-preserving AST rewrite rules are applied at each of the first three applicable sites of every program: commute the operands of + & | ^ (side-effect-free operands); a < b <-> b > a and a <= b <-> b >= a; x op= e <-> x = x op e; statement-level ++x / x++ / --x / x-- <-> x += 1 / x -= 1; if (c) A else B <-> if (!c) B else A; for <-> while (bodies without continue); switch <-> if-chain (groups ending in break, default last). Plus template pairs: indexing through a register holding k versus the constant k (read, write, +=, ++, compare, 16-bit arrays), a call versus its body written in place (also with the function marked inline), ++x versus x += 1 between an operation that leaves a carry and a test of x, flipped 16-bit comparisons over inputs with equal and different high bytes, and switches with multi-label case groups versus if-chains. Both spellings are compiled at -O1 and -O0; if both are accepted they are co-executed from every enumerated input and must end in the same RAM/X/Y. Non-trivial = both spellings executed; distinct = distinct (original, rewritten) pair.".into()
     }
     fn assumptions(&self) -> Vec<String> {
         vec!["purely differential: no reference model; a spelling the compiler rejects is counted, not judged".into()]
